@@ -70,7 +70,7 @@ Definition outcome_of (r : res response) : outcome :=
   end.
 Theorem get_with_redirects_tie : forall fetch fuel url max chain,
   (forall i u m, fetch i u <> Err (lit "OutOfFuel") m) ->
-  outcome_of (gen_get_with_redirects fetch fuel url max chain) = fst (follow fetch fuel max url chain).
+  outcome_of (gen_get_with_redirects fetch fuel url max chain) = fst (Redirect.follow fetch fuel max url chain).
 Proof. exact Equiv_proofs.get_with_redirects_tie. Qed.
 Print Assumptions get_with_redirects_tie.
 
